@@ -54,5 +54,14 @@ func updProbeEngineFlags() (string, map[string]bool) {
 		c := ex.LoadControlLimitData[0].IsLimitChangeable
 		flags["inplaceAltersFlag"] = c == nil || !*c
 	}
-	return fmt.Sprintf("cfg %d %d %d %d", h.B2i(flags["mergeStrict"]), h.B2i(flags["selNilPanics"]), h.B2i(flags["emptySelPanics"]), h.B2i(flags["inplaceAltersFlag"])), flags
+	// deleteStrict: a remote delete whose selector matches only the changeable limit 0 while limit 1 is not changeable
+	{
+		ex := &model.LoadControlLimitListDataType{LoadControlLimitData: []model.LoadControlLimitDataType{updLimit(0, &tr, 1), updLimit(1, &fa, 2)}}
+		f := &model.FilterType{CmdControl: &model.CmdControlType{Delete: &model.ElementTagType{}},
+			LoadControlLimitListDataSelectors: &model.LoadControlLimitListDataSelectorsType{LimitId: util.Ptr(model.LoadControlLimitIdType(0))}}
+		ok := false
+		h.Recover(func() { _, ok = ex.UpdateList(true, true, &model.LoadControlLimitListDataType{}, nil, f) })
+		flags["deleteStrict"] = !ok
+	}
+	return fmt.Sprintf("cfg %d %d %d %d %d", h.B2i(flags["mergeStrict"]), h.B2i(flags["selNilPanics"]), h.B2i(flags["emptySelPanics"]), h.B2i(flags["inplaceAltersFlag"]), h.B2i(flags["deleteStrict"])), flags
 }
